@@ -344,6 +344,35 @@ PROPS.update({
     },
 })
 
+PROPS.update({
+    "C19": {
+        "tests": "^TestC19_",
+        "quick": {"scale": 3.0, "timeout": 1500},
+        "thorough": {"scale": 20.0, "shards": 16, "timeout": 2400,
+                     "fuzz": [("FuzzC19_ParseRequest", 90), ("FuzzC19_Bytes", 90), ("FuzzC19_Patch", 90), ("FuzzC19_ResolveDID", 60), ("FuzzC19_JWS", 60)]},
+        "rule": "rapid structure-aware corruption: take a valid create/update/recover/deactivate (all key types), patch of any action, "
+                "long-form DID, JWS/JWK or JSON text and apply 1-3 corruptions (any node replaced by one of 22 hostile values of another "
+                "JSON type incl. huge strings, deep nesting, numeric extremes; member dropped / renamed in another case / added; byte-level "
+                "edits for text). Operations are corrupted in the outer request, or in the delta / signed payload / protected header "
+                "*before* hashing and signing so that the outer checks pass; ietf-json-patch lists are built from hostile pointers "
+                "(negative, out-of-range, overflowing, leading-zero indices, '-', empty tokens, pointers into their own source, null / "
+                "number for op/path/from) and also wrapped in a valid signed update; valid operations are handed to entry points "
+                "expecting another type. Entry points: Parser.Parse/ParseOperation(batch and not)/GetRevealValue/GetCommitment/ParseDID, "
+                "GetAnchoredOperation, Applier.Apply (existing and empty state, every anchored type), ProcessOperation, ResolveDocument, "
+                "VDR.Read, ParseJWS/VerifyJWS/VerifySignature/JWK decoding/GetED25519PublicKey, MarshalCanonical, hashing and commitment "
+                "functions, patch.FromBytes/PatchesFromDocument/all constructors, Validate, ApplyPatches, both transformers on the "
+                "composed documents, both document validators. Oracle: recover() around each call (panic = violation); process death "
+                "= violation via the in-flight journal; time-out = inconclusive. Plus deep nesting (10k/30k levels; 100k in thorough) "
+                "and the committed regression inputs. Non-trivial: the corrupted input is still well-formed enough to get past the "
+                "first decoding step (JSON-valid / three-part DID); distinct by description of the corruption.",
+        "technique": "structure-aware corruption with rapid + native coverage-guided fuzzing (thorough) over a registry of entry points, panic/process-death oracle",
+        "level_text": "Randomised structure-aware corruption and coverage-guided fuzzing; absence of panics is only explored, never proved.",
+        "level_note": "Trusts recover() and the driver's detection of child-process death; non-termination can only be observed as a time-out (reported as inconclusive).",
+        "assumptions": ["nil Go arguments (nil document map, nil JWK pointer) are programmer errors, not untrusted input",
+                        "inputs <= 64 KiB for fuzzing, <= 1 MiB overall; the canonicalizer is quadratic in nesting depth (100k levels = 16 s): it terminates, so this is reported as an observation, not a violation"],
+    },
+})
+
 NOT_APPLICABLE = {p: "check not built yet (work in progress; this entry is temporary)" for p in
                   ["C%02d" % i for i in range(1, 21)]}
 HOOK_COMMITS = []
